@@ -164,6 +164,8 @@ DoSet(o, k, v) ==
                \cup (IF ok /\ Has(L, k) /\ Len(L) < Max THEN {"exist_below_max"} ELSE {})
                \cup (IF ok /\ ~Has(L, k) /\ Len(L) = Max - 1 THEN {"grow_to_max"} ELSE {})
                \cup (IF ~ok /\ Len(L) > 0 THEN {"invalid_on_nonempty"} ELSE {})
+               \cup (IF ok /\ Has(L, k) /\ FirstVal(L, k) = v /\ L[1][1] # k
+                      THEN {IF Len(L) >= Max THEN "same_value_moved_at_max" ELSE "same_value_moved"} ELSE {})
   IN \/ Commit("set", o, k, v, ideal, lat, alt, {}, fl)
      \/ /\ alt # <<>> /\ alt[1].dev \in Dev
         /\ Commit("set", o, k, v, alt[1].res, lat, <<[dev |-> "ideal", res |-> ideal]>>, {alt[1].dev}, fl)
@@ -187,6 +189,9 @@ More == nops < MaxOps /\ Menu = "ops"
 
 ASetExisting == More /\ \E o \in Objs : \E p \in Pos(Len(objs[o])) : \E vc \in {"s", "sp"} :
                    DoSet(o, objs[o][p][1], NewVal(vc))
+\* Set of a present key with EXACTLY the value it already has (same abstract value = same bytes): the member
+\* still moves to the front - "Set places the given key first", whether or not the value changes
+ASetSame     == More /\ \E o \in Objs : \E p \in Pos(Len(objs[o])) : DoSet(o, objs[o][p][1], objs[o][p][2])
 ASetNew      == More /\ \E o \in Objs : \E c \in {<<"s", "s">>, <<"m", "sp">>, <<"b", "b">>, <<"bm", "x">>} :
                    DoSet(o, NewKey(c[1]), NewVal(c[2]))
 ASetBadKey   == More /\ \E o \in Objs : \E kc \in InvalidKC : DoSet(o, NewKey(kc), NewVal("s"))
@@ -202,7 +207,7 @@ AGetBad      == More /\ \E o \in Objs : \E kc \in InvalidKC : DoGet(o, NewKey(kc
 ARoundTrip   == nops < MaxOps /\ \E o \in Objs :
                    Commit("rt", o, NoK, NoK, FromHeader(ToHeader(objs[o])), latest[o], <<>>, {}, {})
 
-Next == ASetExisting \/ ASetNew \/ ASetBadKey \/ ASetBadVal \/ ADelete \/ ADeleteAbsent \/ ADeleteBad
+Next == ASetExisting \/ ASetSame \/ ASetNew \/ ASetBadKey \/ ASetBadVal \/ ADelete \/ ADeleteAbsent \/ ADeleteBad
         \/ AGetPresent \/ AGetAbsent \/ AGetBad \/ ARoundTrip
 
 Spec == Init /\ [][Next]_vars
@@ -226,6 +231,9 @@ SetPutsFirstKeepsRestOnce ==
      /\ Len(last.res) >= 1 /\ last.res[1] = <<last.k, last.v>>
      /\ Count(last.res, last.k) = 1
      /\ Others(last.res, last.k) = Others(last.src, last.k)
+\* ... also when the value passed in is the one the member already has
+SameValueStillMoves == (SetOk /\ Has(last.src, last.k) /\ FirstVal(last.src, last.k) = last.v) =>
+                          (last.res[1] = <<last.k, last.v>> /\ Len(last.res) = Len(last.src))
 RefusedAtMax == (SetOk /\ ~Has(last.src, last.k) /\ Len(last.src) >= Max) => last.res = last.src
 DeleteExact == (last.op = "del" /\ ValidKey(last.k)) =>
                  /\ ~Has(last.res, last.k)
